@@ -3,7 +3,7 @@ Oracle (implementation only): strict HTTP/1.1 grammar (vlib/strict_http.py), reg
 with its reason phrase, Content-Length = body bytes, no body for HEAD/OPTIONS, no framing header
 twice, client text cannot add or split header lines (response header NAMES are from the server's
 own fixed vocabulary), and under every short-write script the peer receives the whole response."""
-from vlib import common as C, serve as S, reqgen as G, strict_http as H, servecheck as K
+from vlib import common as C, serve as S, reqgen as G, strict_http as H, servecheck as K, gen_c05 as X
 
 DRIVERS = ['Serve']   # model driver files this check runs: scopes translator failures to the tables they (and the proofs) import
 TRUSTED = ['scripted transport: any non-empty prefix may be accepted per write call; flush is a separate call']
@@ -77,14 +77,47 @@ def build(rng, tier):
         batches.append((tree, cases))
     return batches
 
+def build_extra(rng, tier):
+    """[(environment | None, [(tree, cases)])]: the input classes of vlib/gen_c05.py (see its head); build() above is left as it
+    is (props/c10.py runs a slice of it)"""
+    head = X.measure_head()
+    if tier == 'quick':
+        default = [X.sites_batch(rng, tier), X.framing_batch(rng, tier), X.echo_batch(rng, tier), X.length_batch(rng, tier, head)]
+    else:
+        default = [X.sites_batch(rng, tier, k, 8) for k in range(8)] + [X.framing_batch(rng, tier), X.echo_batch(rng, tier), X.length_batch(rng, tier, head)]
+        for _ in range(6): default += [X.sites_batch(rng, 'quick'), X.framing_batch(rng, tier), X.echo_batch(rng, tier)]
+    return [(None, default)] + [(env, [(tree, cases)]) for env, tree, cases in X.config_batches(rng, tier)]
+
+def run_groups(groups):
+    """groups: [(environment, batches)]; one K.run_batches call per environment, side by side"""
+    import threading
+    out = [None] * len(groups)
+    def work(i):
+        env, batches = groups[i]
+        out[i] = K.run_batches(batches, with_model=WITH_MODEL, env=env)
+    ts = [threading.Thread(target=work, args=(i,)) for i in range(len(groups))]
+    for t in ts: t.start()
+    for t in ts: t.join()
+    if any(o is None for o in out): raise RuntimeError('a batch group did not finish')
+    return [x for o in out for x in o]
+
+def same_answer(il, ml):
+    """S.canon leaves a line alone when nothing was written: the legacy entry point still RETURNS the response it could not write
+    (first write call failed), time stamps included - they are masked here before the two sides are compared"""
+    if il == ml: return True
+    a, b = il.split(' '), ml.split(' ')
+    if len(a) != 4 or len(b) != 4 or a[1:] != b[1:] or not (a[0].startswith('ret:') and b[0].startswith('ret:')): return False
+    try: return S.mask_ts(C.unhx(a[0][4:])) == S.mask_ts(C.unhx(b[0][4:]))
+    except ValueError: return False
+
 def judge(res, results, status_table=None):
     for c, r, il, ml in results:
         res.evaluations += 1
         res.count(c.kind.split(':')[0] + ' ' + c.entry)
-        res.distinct.add(hash((c.entry, c.raw, c.ws, c.flush)))
+        res.distinct.add(hash((c.entry, c.raw, c.ws, c.flush, c.app, c.alloc, c.line[:24])))
         if ml is not None:
             res.programs += 1
-            if il != ml: res.disagree(c.line[:400], il[:400], ml[:400], 'Server.process/Response.generate_response')
+            if not same_answer(il, ml): res.disagree(c.line[:400], il[:400], ml[:400], 'Server.process/Response.generate_response')
         head = K.judge_common(res, c, r, 'C05')
         if head is None: continue
         full = r['writes'][0] if r['writes'] else b''
@@ -94,8 +127,8 @@ def judge(res, results, status_table=None):
         if resp is None:
             res.fail('malformed-response', c.line[:300], full[:160].hex(), None, f'C05: emitted bytes are not a well-formed response: {why}')
             continue
-        parsable = K.request_is_parsable(c.raw)
-        meth = (c.method if c.kind != 'mutated' else c.raw.split(b'\n', 1)[0].decode('utf-8', 'replace').strip(K.RUST_WS).split(' ', 1)[0]) if parsable else 'GET'
+        parsable = K.request_is_parsable(c.raw, c.alloc or 10000)
+        meth = (c.method if c.kind != 'mutated' and c.method != '?' else c.raw.split(b'\n', 1)[0].decode('utf-8', 'replace').strip(K.RUST_WS).split(' ', 1)[0]) if parsable else 'GET'
         for b in H.check_framing(resp, meth):
             res.fail('framing:' + b, c.line[:300], full[:200].hex(), None, f'C05: {b} (method {meth})')
         for n, v in resp['headers']:
@@ -103,6 +136,8 @@ def judge(res, results, status_table=None):
                 res.fail('injected-header', c.line[:300], n, None, f'C05: header name {n!r} is not one the server emits: client text split or added a header line')
             if '\r' in v or '\n' in v:
                 res.fail('line-break-in-header', c.line[:300], v[:60], None, 'C05: header value contains a line break')
+            if c.note and v.strip() == c.note:
+                res.fail('injected-header', c.line[:300], n + ': ' + v, None, f'C05: the header line {n}: {v} was written by the client, not by the server: client text added a header line')
         # delivery: unless the script fails a call, the peer must have received every byte
         if c.ws.startswith('e:'):
             continue
@@ -115,10 +150,14 @@ def judge(res, results, status_table=None):
 def run(res, tier, seed):
     rng = C.Rng(seed)
     batches = build(rng, tier)
-    results = K.run_batches(batches, with_model=WITH_MODEL)
+    results = run_groups([(None, batches)] + build_extra(rng, tier))
     judge(res, results)
     res.rule = ('requests: every hostile value (CR, LF, CRLF, NUL, VT, FF, NEL, LS, colons) on every echo site x methods; valid grammar-derived '
                 'requests on both entry points; single mutations; short-write scripts: every chunk size 1..64 and a first-chunk boundary at every '
-                '%s byte of the head, multi-chunk prefixes, write error at call 0/1/2, flush error; distinct = (entry, request, script)' % ('' if tier == 'thorough' else '7th'))
+                '%s byte of the head, multi-chunk prefixes, write error at call 0/1/2, flush error; every write site (read error, unparsable, not origin form, '
+                'failing handler, answer; both entry points) x transport scripts; methods x routes x entry points; ranges x GET/HEAD/OPTIONS x lookup steps; '
+                'body sizes at digit and buffer boundaries; every handler branch; CR at every position of every reflected value (name spellings, repeats, '
+                'position, unterminated, buffer cut at every byte); responses of exactly one power-of-two block; thousands of one-byte writes; configured CORS '
+                'and request-buffer environments; distinct = (entry, request, script, handler, buffer)' % ('' if tier == 'thorough' else '7th'))
     for c, r, il, ml in results[:2]:
         res.sample({'entry': c.entry, 'request': c.raw[:100].decode('latin1'), 'script': c.ws, 'response_head': r['recv'][:40].decode('latin1')})
